@@ -298,6 +298,36 @@ theorem C09_issuers_invariant (c : Config) (ops : List Op) (s : State) (h : Issu
 
 example : IssuersStored ({} : State) := by intro e he; cases he
 
+/-- **C09_issuer_fault.** A storage fault on an issuer upload: the request is answered 500, stores nothing and
+leaves no leaf (the entry reaches no pool) — so the retry starts from the same state and, succeeding, stores
+every chain certificate before the entry enters a pool (`C09_issuers`). -/
+theorem C09_issuer_fault (c : Config) (s : State) (r : Req) (e : Pending) (ch : List Cert)
+    (hm : r.method = .post) (h : admission c s.roots r = .admit e ch)
+    (hnew : e.issuers.all (fun i => s.issuers.contains i) = false) :
+    handleIssuerFault c s r = (s, ⟨500, some (.admit e ch)⟩) := by
+  unfold handleIssuerFault
+  rw [hm]
+  simp only [h, hnew]
+  rfl
+
+/-- whatever the request, a faulted issuer upload keeps I3 and never adds to a pool beyond what the
+unfaulted handler would -/
+theorem C09_issuer_fault_invariant (c : Config) (s : State) (r : Req) (h : IssuersStored s) :
+    IssuersStored (handleIssuerFault c s r).1 := by
+  unfold handleIssuerFault
+  have hh : IssuersStored (handle c s r).1 := C09_issuers_invariant c [.submit r .sequenced] s h
+  cases hm : r.method <;> simp only
+  · cases ha : admission c s.roots r with
+    | reject k => exact hh
+    | admit e ch =>
+      simp only
+      split
+      · exact hh
+      · exact h
+  · exact hh
+  · exact hh
+
+
 /-! ### roots -/
 
 /-- **C09_roots.** After any sequence of operations `get-roots` reports exactly the bundle of the
